@@ -443,8 +443,54 @@ fn gen_huge(ctx: &Ctx, rep: &mut Report, r: &mut Rng) {
     }
 }
 
+/// generator 9: lines that are valid UTF-8 text with multi-byte characters at every offset
+/// (receiver logs contain comments and station names; byte-level generators only ever
+/// produce ASCII or invalid UTF-8)
+fn gen_utf8_text(ctx: &Ctx, rep: &mut Report, r: &mut Rng) {
+    let wide: [&str; 6] = ["\u{e9}", "\u{fc}", "\u{20ac}", "\u{2603}", "\u{1f600}", "\u{10ffff}"];
+    let mut h = Hist::new();
+    let mut idx = 0u64;
+    for prefix in 0..=130usize {
+        if !ctx.mine(idx) {
+            idx += 1;
+            continue;
+        }
+        idx += 1;
+        for w in wide {
+            for head in ["", "!AIVDM,1,1,,A,", "$GPTXT,", "\\c:1\\!AIVDM,", "# "] {
+                let mut l = String::from(head);
+                while l.len() < prefix {
+                    l.push((b'a' + (l.len() % 26) as u8) as char);
+                }
+                for _ in 0..r.usize(1, 40) {
+                    l.push_str(w);
+                }
+                l.push_str(",0*00 tail");
+                h.feed(rep, "utf8-text", l.into_bytes(), r.bool());
+            }
+        }
+    }
+    // corpus sentences with wide characters inserted at random character positions
+    for _ in 0..ctx.budget(4_000, 100_000) {
+        let cb: &[u8] = *r.pick(nmea_ref::CORPUS);
+        let base = String::from_utf8_lossy(cb).into_owned();
+        let mut chars: Vec<char> = base.chars().collect();
+        for _ in 0..r.usize(1, 4) {
+            let pos = r.usize(0, chars.len());
+            let w = r.pick(&wide).chars().next().unwrap();
+            chars.insert(pos, w);
+        }
+        let mut l: Vec<u8> = chars.into_iter().collect::<String>().into_bytes();
+        if r.bool() {
+            refix_checksum(&mut l);
+        }
+        h.feed(rep, "utf8-corpus", l, r.bool());
+    }
+}
+
 pub fn run(ctx: &Ctx, rep: &mut Report) {
     let mut r = ctx.rng("c01");
+    gen_utf8_text(ctx, rep, &mut r);
     gen_huge(ctx, rep, &mut r);
     gen_long_groups(ctx, rep, &mut r);
     gen_header_product(ctx, rep);
